@@ -368,6 +368,39 @@ theorem untagged_refresh_incomplete :
     (liveAt 900 (exec cfgDec s1 (bad.1 ++ [.adv 500])).ts 0) = none ∧
     readable (exec cfgDec s1 (bad.1 ++ [.adv 500, .deleteTags [0]])) 0 = some (.nums [480, 2]) := by decide
 
+/-! ### tag members in several prefix-routed backends -/
+
+/-- **`delete_many` over several backends removes every key it is given.**  When the keys of one call - for `_delete_tag`: the
+members popped from a tag set - live in several backends routed by key prefix (`owner`: any assignment of keys to backends),
+grouping them by owner and sending each group to its backend removes exactly the keys of the call, like the single-backend
+`delete_many` of the history theorems (`.deleteMany`): every entry named is gone and counts as explicitly deleted, every other
+entry is as it was.  So `delete_tags_complete` and the precision theorems hold for any number of data backends. -/
+theorem delete_many_routed_removes_all (cfg : Cfg) (owner : Nat → Nat) (s : St) (ks : List Nat) (k : Nat) :
+    (deleteManyRouted cfg owner s ks).kv k = (step cfg s (.deleteMany ks)).1.kv k ∧
+    (deleteManyRouted cfg owner s ks).since k = (step cfg s (.deleteMany ks)).1.since k ∧
+    (deleteManyRouted cfg owner s ks).kv k = if k ∈ ks then none else s.kv k := by
+  have h := foldl_groups_kv_since cfg (groupsBy owner ks) s k
+  have hm : (∃ g ∈ groupsBy owner ks, k ∈ g) ↔ k ∈ ks := mem_groupsBy owner ks k
+  have e1 : (deleteManyRouted cfg owner s ks).kv k = if k ∈ ks then none else s.kv k := by
+    unfold deleteManyRouted; rw [h.1]; simp [hm]
+  have e2 : (deleteManyRouted cfg owner s ks).since k = if k ∈ ks then [] else s.since k := by
+    unfold deleteManyRouted; rw [h.2]; simp [hm]
+  refine ⟨?_, ?_, e1⟩
+  · rw [e1]; show _ = (ks.foldl (St.delKey cfg) s).kv k; rw [foldl_delKey_kv]
+  · rw [e2]; show _ = (ks.foldl (St.delKey cfg) s).since k; rw [foldl_delKey_since]
+
+/-- **Sending every group to the first key's backend breaks the property.**  Keys 0 and 1 carry tag 0 and live in two backends
+(`owner k = k % 2`).  `_delete_tag` pops both members; the mis-routed `delete_many` (`keys[0]` instead of the group's first key)
+deletes only what the first key's backend owns: key 1 stays readable although its latest write carried the tag, and since its
+membership is popped a second `delete_tags` does not find it either.  Routed by owner, both are gone. -/
+theorem misrouted_delete_many_incomplete :
+    let s0 := exec cfgEx init [.set 0 (.tok 1) none .always [0], .set 1 (.tok 2) none .always [0]]
+    let popped := s0.setPop 0 100
+    let bad := deleteManyMisrouted cfgEx (· % 2) popped.1 popped.2
+    let good := deleteManyRouted cfgEx (· % 2) popped.1 popped.2
+    popped.2 = [0, 1] ∧ 0 ∈ s0.last 1 ∧ readable bad 0 = none ∧ readable bad 1 = some (.tok 2) ∧
+    readable (bad.deleteTags cfgEx [0]) 1 = some (.tok 2) ∧ readable good 0 = none ∧ readable good 1 = none := by decide
+
 /-! ### second layer: the registry's template matching (what makes templated tags `Registered`) -/
 
 open CashewsVerif.TagTpl in
